@@ -183,18 +183,25 @@ def gen(rng, tier):
             plans[0]["read"] = rng.choice(["none", "none", "eager"])
             by_tag[str(tag)] = _http_script(plans[0])
             client = [["feed", b"POST /t%d HTTP/1.1\r\nHost: h\r\ntransfer-encoding: chunked\r\n\r\n3\r\nabc\r\n" % tag]]
+            # ... and a client that is not reading at that moment: the 400 is still being written (the connection is not closed yet) when
+            # the application's messages come
+            blocked_400 = rng.random() < 0.5
+            if blocked_400:
+                client = [["pause"]] + client
         if shape == "h2.three" and rng.random() < 0.3:
             config["keep_alive_max_requests"] = rng.choice([1, 2])  # the server itself sends GOAWAY while applications are still running
-        pos = rng.randint(0, len(client)) if closure != "bad_chunk" else 1
+        pos = rng.randint(0, len(client)) if closure != "bad_chunk" else len(client)
         step = {"eof": [["eof"]], "reset": [["reset"]], "fail_write": [["fail_write_at", rng.choice([1, 2, 3])]],
                 "idle_expiry": [["advance", 2.5 * T]], "terminate": [["terminate"]],
                 "ws_client_close": [["feed", ws.close_frame(rng.choice([1000, 1001, None]))]] if shape == "ws.h11" else [["eof"]],
                 "client_goaway": [["feed", FrameBuilder().goaway(last=5, code=0)], ["eof"]],
                 "bad_chunk": [["feed", b"zz\r\n"]]}[closure]
         client = client[:pos] + [["mark", "closure"]] + step + client[pos:]
-        client += [["settle"], ["trigger", "late"], ["settle"], ["advance", 2.5 * T], ["eof"], ["settle"]]
+        blocked_400 = closure == "bad_chunk" and blocked_400
+        client += [["settle"], ["trigger", "late"], ["settle"]] + ([["resume"], ["settle"]] if blocked_400 else []) + [["advance", 2.5 * T], ["eof"], ["settle"]]
         case = {
-            "family": "%s.%s" % (shape, closure), "backends": ["asyncio", "trio"], "config": config, "conn": {},
+            "family": "%s.%s" % (shape, closure) + (".write-blocked" if blocked_400 else ""), "backends": ["asyncio", "trio"], "config": config,
+            "conn": {"write_buffer": 16} if blocked_400 else {},
             "apps": {"default": [["recv_until_end"], ["respond", 200, [], b"d"], ["linger", 40.0]], "by_tag": by_tag},
             "client": client, "truth": {"shape": shape, "plans": plans, "closure": closure, "pos": pos},
             "sched": {"seed": rng.randrange(1 << 30), "net_jitter": rng.choice([None, None, [0.3, 2]])}, "horizon": 300.0,
